@@ -48,7 +48,47 @@ def paired(rep, thorough):
                                    "config_a": NG.cfg_json(base[2]), "config_b": NG.cfg_json(cfg)}, True)
         rep.add_eval(("pairs", seed), nontrivial=True)
     rep.monitor["C20_paired_runs"] = {"hydraulic_setups": n, "comparisons": compared, "violations": viol}
+    float_pairs(rep, thorough)
     return {}
+
+
+def float_pairs(rep, thorough):
+    """floating-point pairs that reach the unmodelled quality code: default pollutant set (river biochemistry,
+    nutrient pools of growing surfaces) against reduced sets, same hydraulic set-up"""
+    n = 200 if thorough else 30
+    viol = 0
+    for seed, size in net_check.gen_cases("net_C20_fpairs", n, 6):
+        r0 = random.Random(seed)
+        opts = {"growing": True, "start": r0.choice(NG.STARTS)}
+        size = r0.choice(["land", "full", "land"])
+        base = None
+        for k, ps in enumerate(["default", r0.choice(["simple", "four"])]):
+            o = dict(opts)
+            o["polseed"] = k
+            cfg = NG.gen_model(random.Random(seed), ndates=6, polset=ps, size=size, opts=o)
+            mon, model, err, out = MN.run_cfg(cfg, "float", pids=())
+            vols = [(rec["flows"], rec["stores"]) for rec in mon.records] if not err else ("raised", err.split(" at ")[0])
+            if base is None:
+                base = (ps, vols, cfg)
+                continue
+            bad = None
+            if isinstance(vols, tuple) or isinstance(base[1], tuple):
+                bad = "the run raised under one configuration only" if vols != base[1] else None
+            else:
+                for t, (a, b) in enumerate(zip(base[1], vols)):
+                    for part in (0, 1):
+                        for key, x in a[part].items():
+                            y = b[part].get(key)
+                            if y is None or abs(x - y) > 1e-9 * max(1.0, abs(x), abs(y)):
+                                bad = bad or f"timestep {t}: {key}: {x} under '{base[0]}' vs {y} under '{ps}'"
+            if bad:
+                viol += 1
+                if viol <= 3:
+                    rep.violation("counterexample", f"C20 paired float runs: volumes differ between pollutant configurations: {bad}",
+                                  {"seed": seed, "size": size, "polsets": [base[0], ps], "mode": "float",
+                                   "config_a": NG.cfg_json(base[2]), "config_b": NG.cfg_json(cfg)}, True)
+        rep.add_eval(("fpairs", seed), nontrivial=True)
+    rep.monitor["C20_paired_float_runs_with_growing_surfaces"] = {"hydraulic_setups": n, "violations": viol}
 
 
 if __name__ == "__main__":
